@@ -10,7 +10,7 @@ def bumpCount (n : Name) : List (Name × Nat) → List (Name × Nat)
 def countOf (m : List (Name × Nat)) (n : Name) : Nat := (m.lookup n).getD 0
 
 /-- inner loop over `possibleType.Interfaces` -/
-def sugIfaces (s : Schema) (name : Name) : List Name → List Name × List (Name × Nat) → List Name × List (Name × Nat)
+def sugIfaces (s : SV) (name : Name) : List Name → List Name × List (Name × Nat) → List Name × List (Name × Nat)
   | [], acc => acc
   | i :: rest, (ifs, cnt) =>
     match s.type? i with
@@ -21,7 +21,7 @@ def sugIfaces (s : Schema) (name : Name) : List Name → List Name × List (Name
     | none => sugIfaces s name rest (ifs, cnt)
 
 /-- outer loop over `GetPossibleTypes(parent)`: (object types, interface types, usage count) -/
-def sugTypes (s : Schema) (name : Name) :
+def sugTypes (s : SV) (name : Name) :
     List Name → List Name × List Name × List (Name × Nat) → List Name × List Name × List (Name × Nat)
   | [], acc => acc
   | t :: rest, (objs, ifs, cnt) =>
@@ -38,7 +38,7 @@ def sugLess (cnt : List (Name × Nat)) (a b : Name) : Bool :=
   if countOf cnt b ≠ countOf cnt a then countOf cnt b < countOf cnt a else bytesLt a b
 
 /-- `getSuggestedTypeNames` (`[]` stands for the nil result as well) -/
-def getSuggestedTypeNames (s : Schema) (parent : Definition) (name : Name) : List Name :=
+def getSuggestedTypeNames (s : SV) (parent : Definition) (name : Name) : List Name :=
   if !isAbstractType parent then []
   else
     let r := sugTypes s name (s.possible parent.name) ([], [], [])
@@ -49,7 +49,7 @@ def getSuggestedFieldNames (parent : Definition) (name : Name) : List Name :=
   if parent.kind != .object && parent.kind != .interface then []
   else suggestionList name (parent.fields.map (·.name))
 
-def fieldsOnCorrectTypeStep (s : Schema) (_ : QueryDoc) (e : Event) : List RErr :=
+def fieldsOnCorrectTypeStep (s : SV) (_ : QueryDoc) (e : Event) : List RErr :=
   match e.p with
   | .field f (some parent) none =>
     let msg := str "Cannot query field " ++ dq f.name ++ str " on type " ++ dq parent.name ++ str "."
